@@ -8,7 +8,7 @@
    The digest H, zstd (zcomp/zdecomp) and the index codec are arbitrary functions. *)
 From Coq Require Import List NArith Arith Bool.
 From DS Require Import Gen.Constants Base.Bytes Base.Hash Base.Hex Base.GoPath
-     Model.HTTPServer Proofs.HTTPServerProofs.
+     Model.HTTPServer Model.ServerCLI Proofs.HTTPServerProofs.
 Import ListNotations.
 
 (* auth_gate: with an authorization value configured, a request whose header value differs
@@ -122,6 +122,46 @@ Theorem C15_index_content_from_plain_name : forall d n b,
   fs_open d n = OFile b -> dlookup n d = Some (DFile b) /\ n <> [dot] /\ n <> [dot; dot] /\ n <> [slash].
 Proof. exact fs_open_file. Qed.
 Print Assumptions C15_index_content_from_plain_name.
+
+(* ---------- the same guarantees over the command line of `desync chunk-server` / `index-server`
+   (Model/ServerCLI.v: options record -> handler parameters) ---------- *)
+
+(* An expected Authorization value given with --authorization OR only through DESYNC_HTTP_AUTH
+   is enforced by both servers; the flag wins when both are given. *)
+Theorem C15_cli_auth_gate :
+  forall H zcomp zdecomp (index_t : Type) (idx_decode : bytes -> option index_t) idx_encode o r,
+  o_auth_flag o <> [] \/ o_auth_env o <> [] -> r_auth r <> cli_auth o ->
+  (forall files, cli_chunk_handle H zcomp zdecomp o files r = (resp 401 [], cli_store o files)) /\
+  (forall d, cli_index_handle index_t idx_decode idx_encode o d r = (resp 401 [], d)).
+Proof. exact cli_auth_gate. Qed.
+Print Assumptions C15_cli_auth_gate.
+
+Theorem C15_cli_auth_source : forall o,
+  (o_auth_flag o <> [] -> cli_auth o = o_auth_flag o) /\ (o_auth_flag o = [] -> cli_auth o = o_auth_env o).
+Proof. intros o. split; [apply cli_auth_flag|apply cli_auth_env]. Qed.
+Print Assumptions C15_cli_auth_source.
+
+Theorem C15_cli_readonly :
+  forall H zcomp zdecomp (index_t : Type) (idx_decode : bytes -> option index_t) idx_encode o r,
+  o_writable o = false ->
+  (forall files, snd (cli_chunk_handle H zcomp zdecomp o files r) = cli_store o files) /\
+  (forall d, snd (cli_index_handle index_t idx_decode idx_encode o d r) = d).
+Proof. exact cli_readonly. Qed.
+Print Assumptions C15_cli_readonly.
+
+(* --skip-verify-write=false governs uploads whatever --skip-verify-read is set to: anything the
+   chunk server stores decodes to data hashing to the id of the request path. *)
+Theorem C15_cli_put_verified : forall H zcomp zdecomp o files r rs s',
+  o_skip_verify_write o = false ->
+  cli_chunk_handle H zcomp zdecomp o files r = (rs, s') -> s' <> cli_store o files ->
+  exists ib d,
+    id_from_path (negb (o_uncompressed o)) (r_path r) = Some ib /\
+    from_storage zdecomp (opt_converters (o_uncompressed o)) (r_body r) = Some d /\
+    H d = id_of_bytes ib /\
+    lookup (id_of_bytes ib) (ls_files s') = Some (zcomp d) /\
+    forall j, j <> id_of_bytes ib -> lookup j (ls_files s') = lookup j files.
+Proof. exact cli_put_verified. Qed.
+Print Assumptions C15_cli_put_verified.
 
 (* The two Go standard-library facts the confinement rests on, for every byte string. *)
 Theorem C15_clean_idempotent : forall p, clean (clean p) = clean p.
